@@ -332,7 +332,7 @@ func (rn *Runner) runBatch(cases []*Case) []*Result {
 	if len(cases) == 1 {
 		rn.runSolo(mod, results[0], sub)
 		rn.readOutputs(mod, results[0])
-		if rn.AlsoCheck || rn.AlsoShow {
+		if (rn.AlsoCheck || rn.AlsoShow) && !results[0].TimedOut && !results[0].Crashed {
 			rn.runReadOnly(mod, results, false)
 		}
 		rn.compileAndRun(mod, results)
@@ -514,6 +514,20 @@ func (rn *Runner) runReadOnly(mod string, results []*Result, forceSolo bool) {
 			if len(rest) > 0 {
 				soloAll = true
 			}
+		}
+		if soloAll && len(results) == 1 && (res.TimedOut || rePanic.MatchString(res.Stderr)) {
+			// a batch of one that crashed or hung: repeating it alone would be the same run again
+			r := results[0]
+			diags := []string{"CRASH: " + norm(tail(res.Stderr, 1500), r.Case.Dir)}
+			if res.TimedOut {
+				diags = []string{"CRASH: did not terminate within the cap\n" + norm(tail(res.Stderr, 800), r.Case.Dir)}
+			}
+			if sub == "check" {
+				r.CheckRan, r.CheckDiags = true, diags
+			} else if pass.name == "" {
+				r.ShowRan, r.ShowDiags = true, diags
+			}
+			continue
 		}
 		if soloAll {
 			for _, r := range results {
